@@ -3,6 +3,7 @@
 Require Extraction.
 Require Import ExtrOcamlBasic.
 From Ristretto Require Import Base.Word Sketch.Sketch Bloom.Bloom Sketch.TinyLFU.
+From Ristretto Require Import Simd.X86 Simd.SearchGo Gen.SearchAsm.
 
 Extraction "model.ml"
   N.add N.mul N.of_nat N.to_nat Z.of_N Z.to_N Z.add Z.mul Z.opp N.eqb N.ltb Z.ltb
@@ -10,4 +11,5 @@ Extraction "model.ml"
   nib_get nib_inc byte_reset row_get row_inc row_reset row_clear next2power
   sketch_new sk_increment sk_estimate sk_reset sk_clear
   get_size bloom_new bl_add bl_has bl_add_if_not_has bl_clear bl_marshal bl_unmarshal
+  first_ge naive search_portable search_amd64 run_kernel search_prog search_guarded
   tl_new tl_estimate tl_increment tl_push tl_clear tl_reset.
